@@ -259,21 +259,26 @@ class SendEventResponse(StreamingResponse[ServerSentEvent]):
                     g.close()  # type: ignore
 
         push_future = self.thread_pool.submit(push)
+        pushed_end = False
 
         try:
             while not (push_future.done() and q.empty()):
                 try:
                     event = q.get(timeout=self.ping_interval)
                     if event is None:
+                        pushed_end = True
                         break
                     yield build_bytes_from_sse(event, self.charset)
                 except queue.Empty:
                     yield b": ping\n\n"
         finally:
             should_stop = True
-            while not q.empty():
-                q.get_nowait()  # pragma: no cover
             if not push_future.cancel():
+                # push() may be waiting to put an event, and it always puts the
+                # end marker last: keep taking until that marker, or neither
+                # thread could ever finish.
+                while not pushed_end:
+                    pushed_end = q.get() is None
                 exc = push_future.exception()
                 if exc is not None:
                     raise exc
